@@ -4,7 +4,7 @@
    (order, proto field paths). *)
 From Coq Require Import String List NArith ZArith Bool Lia ZifyN ZifyNat ZifyBool.
 From J5V.lib Require Import Outcome.
-From J5V.model Require Import RulesDecl RulesWrite RulesRead Validate.
+From J5V.model Require Import RulesDecl RulesWrite RulesRead RulesSpec Validate RulesSpecDec.
 From J5V.gen Require Id62Gen.
 From J5V.proofs Require Import RulesProofs.
 Import ListNotations.
@@ -134,7 +134,7 @@ Proof.
       (destruct r as [r|]; cbn [only_ty c_ty vt_of];
        [ unfold pat_plain in Hp; destruct (sr_pat r) as [p|] eqn:Ep;
          [ apply andb_true_iff in Hp as [Hp H3]; apply andb_true_iff in Hp as [H1 H2];
-           apply negb_true_iff in H1, H2, H3; rewrite H1, H2, H3; cbn [orb obind];
+           apply negb_true_iff in H1, H2, H3; rewrite H1, H2, H3; cbn [is_some obind];
            destruct l as [p0|]; cbn; destruct r; cbn in *; subst; reflexivity
          | cbn [obind]; destruct l as [p0|]; cbn; destruct r; cbn in *; subst; reflexivity ]
        | cbn [obind]; destruct l; reflexivity ]).
@@ -164,12 +164,11 @@ Proof.
       destruct e as [[[[[|]|pp ee]|] tn]|]; reflexivity.
     + (* custom *)
       destruct m; try discriminate.
-      apply andb_true_iff in Hrt as [Hp Hnl]. destruct l as [p0|]; [discriminate|].
-      inversion Hl; subst lst. unfold pat_plain in Hp.
-      apply andb_true_iff in Hp as [Hp H3]. apply andb_true_iff in Hp as [H1 H2].
-      apply negb_true_iff in H1, H2, H3.
-      unfold read_string. cbn [only_ty c_ty vt_of]. rewrite H1, H2, H3. cbn.
-      destruct e as [[[[[|]|pp ee]|] tn]|]; reflexivity.
+      apply andb_true_iff in Hrt as [H3 Hnl]. destruct l as [p0|]; [discriminate|].
+      inversion Hl; subst lst. apply negb_true_iff in H3.
+      unfold read_string. cbn [only_ty c_ty vt_of]. rewrite H3.
+      destruct (str_eqb p date_pattern), (str_eqb p number_pattern); cbn;
+        destruct e as [[[[[|]|pp ee]|] tn]|]; reflexivity.
     + (* uuid *)
       destruct l as [p0|]; inversion Hl; subst lst; unfold read_string; cbn;
         destruct e as [[[[[|]|pp ee]|] tn]|]; destruct m; reflexivity.
@@ -245,13 +244,6 @@ Proof.
   - break_in H; inversion H; reflexivity.
 Qed.
 
-(* the reader never produces a string format *)
-Lemma read_string_no_format vt lst j5 key f r l :
-  read_string vt lst j5 key <> Ok (TStr (Some f) r l).
-Proof.
-  unfold read_string. intro H. break_in H; inversion H.
-Qed.
-
 Lemma pat_plain_false p :
   pat_plain (Some p) = false ->
   str_eqb p date_pattern = true \/ str_eqb p number_pattern = true \/ str_eqb p Id62Gen.pattern_string = true.
@@ -273,16 +265,19 @@ Proof.
       try (destruct m; discriminate).
     + (* string *)
       inversion Hw; subst w; clear Hw. cbn [fw_kind read_field norm_fty].
-      destruct sf as [sf|]; [apply read_string_no_format|].
-      destruct r as [r|]; [|destruct m; discriminate].
-      assert (Hp : pat_plain (sr_pat r) = false) by (destruct m; exact Hb).
-      destruct (sr_pat r) as [p|] eqn:Ep; [|discriminate].
-      unfold vt_seen. cbn [fw_val vt_of only_ty c_ty]. unfold read_string.
-      destruct (pat_plain_false p Hp) as [H1|[H1|H1]]; rewrite ?H1; cbn [orb obind].
-      * discriminate.
-      * rewrite orb_true_r. discriminate.
-      * destruct (str_eqb p date_pattern || str_eqb p number_pattern); [discriminate|].
-        cbn [obind]. intro H. break_in H; inversion H.
+      destruct sf as [sf|].
+      { (* a declared format is not written; the reader derives "date" / "number" from a
+           well-known pattern, and then drops the pattern *)
+        unfold vt_seen. cbn [fw_val vt_of].
+        destruct r as [[[p|] mn mx]|]; cbn [only_ty c_ty vt_of sr_pat sr_min sr_max];
+          unfold read_string; intro H; break_in H; inversion H. }
+      destruct r as [[pat mn mx]|]; [|destruct m; discriminate].
+      assert (Hp : pat_plain pat = false) by (destruct m; exact Hb).
+      destruct pat as [p|]; [|discriminate].
+      unfold vt_seen. cbn [fw_val vt_of only_ty c_ty sr_pat sr_min sr_max]. unfold read_string.
+      unfold pat_plain in Hp.
+      destruct (str_eqb p date_pattern), (str_eqb p number_pattern), (str_eqb p Id62Gen.pattern_string);
+        try discriminate Hp; cbn [is_some]; intro H; break_in H; inversion H.
     + (* key *)
       apply obind_ok in Hw as [lst [Hl Hw]]. inversion Hw; subst w; clear Hw.
       destruct id62_not_wellknown as [Hd Hn].
@@ -296,12 +291,9 @@ Proof.
         destruct m.
         -- (* singular: well-known pattern, or list rules *)
            cbn [j5_seen list_seen fw_ext fw_list]. apply andb_false_iff in Hb as [Hp|Hls].
-           ++ unfold read_string. cbn [vt_of only_ty c_ty].
-              destruct (pat_plain_false p Hp) as [H1|[H1|H1]]; rewrite ?H1; cbn [orb obind].
-              ** discriminate.
-              ** rewrite orb_true_r. discriminate.
-              ** destruct (str_eqb p date_pattern || str_eqb p number_pattern); [discriminate|].
-                 cbn [obind]. intro H. break_in H; inversion H.
+           ++ apply negb_false_iff in Hp. apply str_eqb_eq in Hp. subst p.
+              unfold read_string. cbn [vt_of only_ty c_ty]. rewrite Hd, Hn, str_eqb_refl.
+              intro H. break_in H; inversion H.
            ++ destruct l as [p0|]; [|discriminate]. inversion Hl; subst lst.
               unfold read_string. cbn [vt_of only_ty c_ty]. intro H. break_in H; inversion H.
         -- cbn [j5_seen list_seen]. unfold read_string. intro H. break_in H; inversion H.
@@ -366,12 +358,51 @@ Proof.
   - destruct (fw_val w) as [c|] eqn:E; [|reflexivity]. eapply write_field_noreq; eauto.
 Qed.
 
+Lemma desc_plain_eq d : desc_plain d = true -> clean_desc d = d.
+Proof. unfold desc_plain. apply str_eqb_eq. Qed.
+
+(* whether the declared item type carries a constraint, and whether the writer emits one *)
+Lemma write_field_constrained env t w :
+  write_field env t = Ok w -> is_some (fw_val w) = items_constrained t.
+Proof.
+  intro Hw.
+  destruct t as [k r l|sf r l|r|r l|r l|f e l|f64 l|r l|r l|l|od ts l|fl|l]; cbn [write_field] in Hw;
+    try (apply obind_ok in Hw as [x [Hx Hw]]);
+    inversion Hw; subst w; cbn [fw_val items_constrained]; try reflexivity.
+  - destruct r as [r|].
+    + apply obind_ok in Hx as [c [_ Hx]]. inversion Hx. reflexivity.
+    + inversion Hx. reflexivity.
+  - destruct r; reflexivity.
+  - destruct r; reflexivity.
+  - destruct r; reflexivity.
+  - destruct f as [[| | |]|]; reflexivity.
+Qed.
+
+(* the description: written as declared, read through commentDescription *)
+Lemma write_prop_desc env idx d o : write_prop env idx d = Ok o -> fo_desc o = p_desc d.
+Proof.
+  unfold write_prop. intro H. apply obind_ok in H as [w [_ H]].
+  match type of H with (if ?c then _ else _) = _ => destruct c; [discriminate|] end.
+  inversion H. reflexivity.
+Qed.
+
+Lemma read_prop_desc env o r : read_prop env o = Ok r -> p_desc (rp_prop r) = clean_desc (fo_desc o).
+Proof.
+  unfold read_prop. intro H.
+  destruct (fo_kind o); try (destruct (fo_rep o));
+    repeat match type of H with
+           | (let '(_, _) := ?x in _) = _ => destruct x
+           end;
+    apply obind_ok in H as [t [_ H]]; inversion H; reflexivity.
+Qed.
+
 Theorem c04_prop env idx d o :
   rt_ok d = true -> write_prop env idx d = Ok o ->
   read_prop env o = Ok (norm_prop env idx d).
 Proof.
   intros Hrt Hw.
-  destruct d as [name req opt ty desc]. unfold rt_ok in Hrt. cbn [p_ty p_opt] in Hrt.
+  destruct d as [name req opt ty desc]. unfold rt_ok in Hrt. cbn [p_ty p_opt p_desc] in Hrt.
+  apply andb_true_iff in Hrt as [Hdesc Hrt]. apply desc_plain_eq in Hdesc.
   unfold write_prop in Hw. cbn [p_name p_req p_opt p_ty p_desc] in Hw.
   apply obind_ok in Hw as [w [Hwf Hw]].
   destruct ty as [t|r sf t|r t].
@@ -398,7 +429,7 @@ Proof.
       rewrite (req_of_val env t w required Hwf);
       unfold norm_prop; cbn [p_name p_req p_opt p_ty p_desc]; fold required;
       replace (negb required && opt) with opt by (destruct required, opt; try reflexivity; discriminate);
-      reflexivity.
+      rewrite Hdesc; reflexivity.
   - (* array *)
     apply andb_true_iff in Hrt as [Hrt Hopt]. apply negb_true_iff in Hopt. subst opt.
     apply obind_ok in Hwf as [wi [Hwt Hwa]]. inversion Hwa; subst w; clear Hwa.
@@ -417,10 +448,11 @@ Proof.
     unfold vt_seen in Hf; cbn [list_seen j5_seen] in Hf.
     destruct (fw_kind wi) eqn:Ek; try (exfalso; eapply Hk; reflexivity);
       lazy iota beta;
-      unfold norm_prop; cbn [p_name p_req p_opt p_ty p_desc]; fold required; rewrite Hwt;
+      unfold norm_prop; cbn [p_name p_req p_opt p_ty p_desc]; fold required;
+      rewrite <- (write_field_constrained env t wi Hwt);
       destruct required; destruct r as [[mn mx uq]|]; destruct (fw_val wi) as [c|] eqn:Ev;
       cbn [set_required is_some orb only_ty c_ty c_req ar_min ar_max ar_uniq vt_of] in *;
-      rewrite Hf; reflexivity.
+      rewrite Hf, Hdesc; reflexivity.
   - (* map *)
     apply andb_true_iff in Hrt as [Hrt Hopt]. apply negb_true_iff in Hopt. subst opt.
     apply obind_ok in Hwf as [wi [Hwt Hwa]]. inversion Hwa; subst w; clear Hwa.
@@ -430,10 +462,11 @@ Proof.
     cbn [fo_kind fo_rep fo_val fo_list fo_ext fo_key fo_json fo_number fo_desc fo_opt].
     pose proof (field_rt env MMap t wi Hrt Hwt) as Hf.
     unfold vt_seen in Hf; cbn [list_seen j5_seen] in Hf.
-    unfold norm_prop. cbn [p_name p_req p_opt p_ty p_desc]. rewrite orb_false_r. rewrite Hwt.
+    unfold norm_prop. cbn [p_name p_req p_opt p_ty p_desc]. rewrite orb_false_r.
+    rewrite <- (write_field_constrained env t wi Hwt).
     destruct req; destruct r as [[mn mx]|]; destruct (fw_val wi) as [c|] eqn:Ev;
       cbn [set_required is_some orb only_ty c_ty c_req mr_min mr_max vt_of] in *;
-      rewrite Hf; reflexivity.
+      rewrite Hf, Hdesc; reflexivity.
 Qed.
 
 
@@ -443,7 +476,12 @@ Lemma c04_prop_conv env idx d o :
   read_prop env o <> Ok (norm_prop env idx d).
 Proof.
   intros Hrt Hw.
-  destruct d as [name req opt ty desc]. unfold rt_ok in Hrt. cbn [p_ty p_opt] in Hrt.
+  unfold rt_ok in Hrt. apply andb_false_iff in Hrt as [Hdesc|Hrt].
+  { (* the description does not survive commentDescription *)
+    intro H. apply read_prop_desc in H. rewrite (write_prop_desc env idx d o Hw) in H.
+    unfold norm_prop in H. cbn [rp_prop p_desc] in H.
+    unfold desc_plain in Hdesc. rewrite <- H, str_eqb_refl in Hdesc. discriminate. }
+  destruct d as [name req opt ty desc]. cbn [p_ty p_opt] in Hrt.
   unfold write_prop in Hw. cbn [p_name p_req p_opt p_ty p_desc] in Hw.
   apply obind_ok in Hw as [w [Hwf Hw]].
   destruct ty as [t|r sf t|r t].
@@ -473,7 +511,7 @@ Proof.
     pose proof (write_field_primary_ty env t wi Hwt) as Hprim.
     cbn [wrap_array fw_key fw_kind fw_val fw_ext fw_list] in Hw.
     assert (Hw' : (if opt && (req || is_primary_ty t) then Err "cannot be both required and optional"
-                   else Ok (FO name (idx + 1)%N (fw_kind wi) true opt false
+                   else Ok (FO name (idx + 1)%N (fw_kind wi) true false false
                          (if req || is_primary_ty t then set_required (fw_val (wrap_array r sf wi)) else fw_val (wrap_array r sf wi))
                          (Some (XArray sf)) (fw_list wi) (fw_key wi) desc)) = Ok o).
     { rewrite <- Hprim. destruct (fw_key wi); exact Hw. }
@@ -617,11 +655,14 @@ Qed.
 (* the normal form changes no meaning: the declared rules of the normal form
    accept exactly the values the declaration accepts (ties C04's notion of
    "the same schema" to C12's semantics) *)
-Lemma norm_int_sem r z : int_rule_ok (norm_int r) z = int_rule_ok r z.
+Lemma norm_int_ok r z : int_rule_ok (norm_int r) z = int_rule_ok r z.
 Proof.
   unfold int_rule_ok, norm_int. destruct r as [mn mx xmn xmx]. cbn [ir_min ir_max ir_xmin ir_xmax].
   destruct mn, mx, xmn as [[|]|], xmx as [[|]|]; reflexivity.
 Qed.
+(* ... stated on the declarative specification (model/RulesSpec.v) *)
+Lemma norm_int_sem r z : int_sem (norm_int r) z <-> int_sem r z.
+Proof. rewrite <- !int_rule_ok_spec, norm_int_ok. reflexivity. Qed.
 
 (* ---------------------------------------------------------------- enums as roots *)
 From J5V.model Require Import RulesEnum.
@@ -637,18 +678,6 @@ Proof.
   unfold trim_suffix. rewrite has_suffix_app. rewrite rev_app_distr, strip_prefix_app. apply rev_involutive.
 Qed.
 
-(* an explicit first option that stands for value 0 is spelled UNSPECIFIED or
-   <prefix>UNSPECIFIED (and the prefix is not itself a prefix of "UNSPECIFIED") *)
-Definition unspec_ok (e : enum_decl) : bool :=
-  match ed_options e with
-  | (n, _) :: _ =>
-      if has_suffix unspecified n
-      then str_eqb n (ed_prefix e ++ unspecified)
-           || (str_eqb n unspecified && negb (has_prefix (ed_prefix e) unspecified))
-      else true
-  | [] => true
-  end.
-
 Lemma write_enum_first e :
   unspec_ok e = true ->
   exists d rest, eo_values (write_enum e) = ((ed_prefix e ++ unspecified)%list, 0%Z, d) :: rest.
@@ -662,12 +691,56 @@ Proof.
     apply negb_true_iff in H2. unfold pfx. rewrite H2. eauto.
 Qed.
 
-Theorem c04_enum e : unspec_ok e = true -> read_enum (write_enum e) = Ok (norm_enum e).
+Lemma trim_pfx p n : trim_prefix p (pfx p n) = trim_prefix p n.
 Proof.
-  intro H. destruct (write_enum_first e H) as [d [rest Hv]].
-  unfold read_enum, norm_enum. rewrite Hv.
-  rewrite has_suffix_app. cbn [negb]. rewrite trim_suffix_app.
-  rewrite <- Hv. reflexivity.
+  unfold pfx. destruct (has_prefix p n) eqn:E; [reflexivity|].
+  unfold trim_prefix. rewrite has_prefix_app, strip_prefix_app, E. reflexivity.
+Qed.
+
+Lemma read_numbered p os : forall i,
+  forallb (fun o => desc_plain (snd o)) os = true ->
+  map (fun v => match v with (n, k, d) => (trim_prefix p n, k, clean_desc d) end) (number_from p i os)
+  = number_options p i os.
+Proof.
+  induction os as [|[n d] r IH]; intros i H; [reflexivity|].
+  cbn [forallb snd] in H. apply andb_true_iff in H as [Hd Hr].
+  cbn [number_from number_options map]. rewrite trim_pfx, (desc_plain_eq d Hd), (IH (i + 1)%Z Hr). reflexivity.
+Qed.
+
+Lemma has_suffix_refl s : has_suffix s s = true.
+Proof. unfold has_suffix. rewrite <- (app_nil_r (rev s)) at 2. apply has_prefix_app. Qed.
+
+Theorem c04_enum e : enum_rt e = true -> read_enum (write_enum e) = Ok (norm_enum e).
+Proof.
+  intro H. unfold enum_rt in H. apply andb_true_iff in H as [H Hos]. apply andb_true_iff in H as [Hu Hd].
+  destruct (write_enum_first e Hu) as [d0 [rest Hv]].
+  unfold read_enum. rewrite Hv. rewrite has_suffix_app. cbn [negb]. rewrite trim_suffix_app.
+  rewrite <- Hv. clear Hv d0 rest.
+  unfold norm_enum, write_enum. cbn [eo_desc eo_values]. rewrite (desc_plain_eq _ Hd). f_equal. f_equal.
+  unfold unspec_ok in Hu.
+  destruct (ed_options e) as [|[n d] r] eqn:Eo.
+  - cbn [map]. unfold trim_prefix. rewrite has_prefix_app, strip_prefix_app. reflexivity.
+  - cbn [forallb snd] in Hos. apply andb_true_iff in Hos as [Hd0 Hr].
+    destruct (has_suffix unspecified n) eqn:Es.
+    + assert (Hn : names_unspecified (ed_prefix e) n = true /\ pfx (ed_prefix e) n = (ed_prefix e ++ unspecified)%list).
+      { unfold names_unspecified. apply orb_true_iff in Hu as [Hu|Hu].
+        - apply str_eqb_eq in Hu. subst n. rewrite str_eqb_refl, orb_true_r. split; [reflexivity|].
+          unfold pfx. rewrite has_prefix_app. reflexivity.
+        - apply andb_true_iff in Hu as [H1 H2]. apply str_eqb_eq in H1. subst n.
+          rewrite str_eqb_refl. split; [reflexivity|]. apply negb_true_iff in H2. unfold pfx. rewrite H2. reflexivity. }
+      destruct Hn as [Hn1 Hn2]. rewrite Hn1. cbn [map]. rewrite Hn2.
+      unfold trim_prefix at 1. rewrite has_prefix_app, strip_prefix_app, (desc_plain_eq d Hd0).
+      rewrite (read_numbered (ed_prefix e) r 1%Z Hr). reflexivity.
+    + assert (Hn : names_unspecified (ed_prefix e) n = false).
+      { unfold names_unspecified. apply orb_false_iff. split.
+        - destruct (str_eqb n unspecified) eqn:E; [|reflexivity]. apply str_eqb_eq in E. subst n.
+          rewrite has_suffix_refl in Es. discriminate.
+        - destruct (str_eqb n (ed_prefix e ++ unspecified)) eqn:E; [|reflexivity]. apply str_eqb_eq in E. subst n.
+          rewrite has_suffix_app in Es. discriminate. }
+      rewrite Hn. cbn [map]. unfold trim_prefix at 1. rewrite has_prefix_app, strip_prefix_app. cbn [clean_desc].
+      assert (Hall : forallb (fun o => desc_plain (snd o)) ((n, d) :: r) = true)
+        by (cbn [forallb snd]; rewrite Hd0, Hr; reflexivity).
+      rewrite (read_numbered (ed_prefix e) ((n, d) :: r) 1%Z Hall). reflexivity.
 Qed.
 
 (* ---------------------------------------------------------------- the printed text *)
